@@ -291,6 +291,11 @@ func C02Request(w *sim.World, in *Info) (vs []V, nValidation int) {
 				vs = append(vs, V{"C02", "upstream-request", "url-differs," + bg, fmt.Sprintf("upstream call %s went to %q, the client asked for %q; %s", c.Serial, c.URL, ReqURL(ex.Spec), ex.Summary())})
 			}
 		}
+		for _, hn := range []string{"If-None-Match", "If-Modified-Since"} {
+			if vs2 := c.Header.Values(hn); len(vs2) > 1 && len(cli.Values(hn)) <= 1 {
+				vs = append(vs, V{"C02", "validation-request", "validators-mixed," + hn, fmt.Sprintf("upstream call %s carries %d %s values %q (the client sent %q): a 304 can no longer be attributed to the stored response; %s", c.Serial, len(vs2), hn, vs2, cli.Values(hn), ex.Summary())})
+			}
+		}
 		if c.Header.Get("X-Reused") != "" {
 			vs = append(vs, V{"C02", "upstream-request", "sees-caller-reuse", fmt.Sprintf("upstream call %s carries header fields the caller set on its request object after RoundTrip had returned; %s", c.Serial, ex.Summary())})
 		}
